@@ -15,6 +15,7 @@ pub fn channel(Tracked(k): Tracked<&mut K>) -> (r: Result<(OsIpcSender, OsIpcRec
             &&& final(k).sock == old(k).sock.insert(cell_val(&rx.fd)).insert(tx.fd.0)
             &&& final(k).log == old(k).log
             &&& final(k).own_rx == old(k).own_rx.insert(cell_val(&rx.fd))     // we hold the new receive end ourselves
+            &&& final(k).consumed == old(k).consumed && !old(k).consumed.contains(cell_val(&rx.fd))
         },
         r is Err ==> *final(k) == *old(k),
 { unimplemented!() }
@@ -30,7 +31,7 @@ pub fn send_first_fragment(Tracked(k): Tracked<&mut K>, sender_fd: c_int, fds: &
         fds@.len() <= MAX_FDS_IN_CMSG, //@@clause:unix.send_first_fragment/requires.fds_le_max
         data_buffer@.len() <= spec_first(sys_sendbuf()), //@@clause:unix.send_first_fragment/requires.fits_first_iovec
     ensures
-        final(k).peer == old(k).peer, final(k).sock == old(k).sock, final(k).own_rx == old(k).own_rx,
+        final(k).peer == old(k).peer, final(k).sock == old(k).sock, final(k).own_rx == old(k).own_rx, final(k).consumed == old(k).consumed,
         r is Ok ==> final(k).q == old(k).q.insert(old(k).peer[sender_fd],
             old(k).q[old(k).peer[sender_fd]].push(Packet { hdr: Some(len as nat), data: data_buffer@, fds: fds@ })),
         r is Err ==> final(k).q == old(k).q,
@@ -47,7 +48,7 @@ pub fn send_followup_fragment(Tracked(k): Tracked<&mut K>, sender_fd: c_int, dat
         // a blocking write notices a vanished receiver (EPIPE) only if the writer does not itself keep the receive end open
         !old(k).own_rx.contains(old(k).peer[sender_fd]), //@@clause:unix.send_followup_fragment/requires.sender_does_not_hold_the_receive_end
     ensures
-        final(k).peer == old(k).peer, final(k).sock == old(k).sock, final(k).own_rx == old(k).own_rx,
+        final(k).peer == old(k).peer, final(k).sock == old(k).sock, final(k).own_rx == old(k).own_rx, final(k).consumed == old(k).consumed,
         r is Ok ==> final(k).q == old(k).q.insert(old(k).peer[sender_fd],
             old(k).q[old(k).peer[sender_fd]].push(Packet { hdr: None, data: data_buffer@, fds: Seq::empty() })),
         r is Err ==> final(k).q == old(k).q,
@@ -98,5 +99,15 @@ pub open spec fn failures_recoverable(l0: Seq<Attempt>, l1: Seq<Attempt>) -> boo
 pub fn drop_receiver(r: Option<OsIpcReceiver>, Tracked(k): Tracked<&mut K>)
     ensures
         final(k).q == old(k).q, final(k).peer == old(k).peer, final(k).sock == old(k).sock, final(k).log == old(k).log,
-        final(k).own_rx == (match r { Some(x) => old(k).own_rx.remove(cell_val(&x.fd)), None => old(k).own_rx }),
+        final(k).consumed == old(k).consumed,
+        final(k).own_rx == (match r { Some(x) => (if old(k).consumed.contains(cell_val(&x.fd)) { old(k).own_rx } else { old(k).own_rx.remove(cell_val(&x.fd)) }), None => old(k).own_rx }),
 { }
+
+impl OsIpcReceiver {
+    // consume_fd: the raw descriptor leaves its owner (Cell::set(-1)): from now on dropping the receiver closes nothing
+    #[verifier::external_body]
+    pub fn consume_fd(&self, Tracked(k): Tracked<&mut K>) -> (r: c_int)
+        ensures r == cell_val(&self.fd), final(k).consumed == old(k).consumed.insert(cell_val(&self.fd)),
+            final(k).q == old(k).q, final(k).peer == old(k).peer, final(k).sock == old(k).sock, final(k).log == old(k).log, final(k).own_rx == old(k).own_rx
+    { unimplemented!() }
+}
